@@ -34,7 +34,7 @@ def generate(tier, wd, rng):
     log("[stmt] MC: %d states, %d pairwise-complete statements + %d simulated/random; %d model-level counterexamples" % (states, len(mc.payloads("CASE")), len(out) - len(mc.payloads("CASE")), len(mvs)))
     return out, states, gen, mvs
 
-def collect(pid, tier, replay_path, prefixes, wd, rng, extra_stmts=None, per_record=None, grammar=False):
+def collect(pid, tier, replay_path, prefixes, wd, rng, extra_stmts=None, per_record=None, grammar=False, portable=False):
     """generate -> replay -> validate; returns (failures [(key, rec)], stats dict)"""
     states = gen = 0; mvs = []
     if replay_path:
@@ -45,7 +45,7 @@ def collect(pid, tier, replay_path, prefixes, wd, rng, extra_stmts=None, per_rec
             stmts = stmts + extra_stmts
     cases = [{"id": i, "stmt": s} for i, s in enumerate(stmts)]
     recs, dt = replay("stmt", cases, wd)
-    verdicts, vt = validate("StmtTrace", recs, os.path.join(wd, "tv"), jvms=12, cfg="SPECIFICATION TSpec\nPOSTCONDITION AllConsumed\nCHECK_DEADLOCK FALSE\n", env={"GRAMMAR": "1" if grammar else "0"})
+    verdicts, vt = validate("StmtTrace", recs, os.path.join(wd, "tv"), jvms=12, cfg="SPECIFICATION TSpec\nPOSTCONDITION AllConsumed\nCHECK_DEADLOCK FALSE\n", env={"GRAMMAR": "1" if grammar else "0", "PORTABLE": "1" if portable else "0"})
     log("[%s] replayed %d statements in %.1fs, validated in %.1fs" % (pid, len(recs), dt, vt))
     byid = {r["id"]: r for r in recs}
     fails = []; notes = []
@@ -73,10 +73,10 @@ def collect(pid, tier, replay_path, prefixes, wd, rng, extra_stmts=None, per_rec
              "skipped": skipped, "mv": len(mv_mine), "samples": [{"stmt": r["stmt"], "pg": slim(r).get("pg") if isinstance(slim(r), dict) else None} for r in recs[:: max(1, len(recs) // 3)][:3]]}
     return fails, notes, stats
 
-def run_prop(pid, tier, replay_path, prefixes, rule, assumptions, extra_stmts=None, per_record=None, extra_cov=None, grammar=False):
+def run_prop(pid, tier, replay_path, prefixes, rule, assumptions, extra_stmts=None, per_record=None, extra_cov=None, grammar=False, portable=False):
     t0 = time.time()
     wd = workdir(pid); rng = random.Random(seed()); V = Verdict(pid, tier)
-    fails, notes, st = collect(pid, tier, replay_path, prefixes, wd, rng, extra_stmts(rng, tier) if extra_stmts and not replay_path else None, per_record, grammar)
+    fails, notes, st = collect(pid, tier, replay_path, prefixes, wd, rng, extra_stmts(rng, tier) if extra_stmts and not replay_path else None, per_record, grammar, portable)
     for n in notes: V.note(n)
     for k, rec in fails: V.fail(k, rec)
     cov = {"states": st["states"], "transitions": st["transitions"], "traces_validated_against_impl": st["n"],
